@@ -30,10 +30,10 @@ Definition http_ok (c : hcase) : bool :=
 (* R3: the Spec evaluated on the observation alone (no model involved): rebuild a resp from what was seen *)
 Definition parse_crange_text (t : string) : option (option (Z * Z * Z)) :=
   if String.eqb t "" then Some None else
-  if has_prefix "bytes " t then
+  if has_prefix t "bytes " then
     match split_char "/" (drop 6 t) with
     | [ae; tot] =>
-        match str_cut "-" ae with
+        match str_cut ae "-" with
         | (a, e, true) =>
             match parse_int10 a, parse_int10 e, parse_int10 tot with
             | Some a', Some e', Some t' => Some (Some (a', e', t'))
